@@ -46,6 +46,15 @@ def managedLower : List Bytes :=
    bs "content-length", bs "transfer-encoding", bs "trailer", bs "connection", bs "upgrade",
    bs "cache-control", bs "proxy-authorization"]
 
+/-- names whose field lines at the next hop the proxy (or Go's request writer) produces itself, so
+    that a line of that name at the hop need not come from the client: each has its own exact clause.
+    Every OTHER name a request nominates in `Connection` is simply gone at the hop
+    (`c01_nominated_removed`), also when the request asks for a protocol upgrade. -/
+def proxyWrittenLower : List Bytes :=
+  [bs "host", bs "via", bs "x-forwarded-for", bs "x-forwarded-proto", bs "x-forwarded-host",
+   bs "x-forwarded-url", bs "accept-encoding", bs "authorization", bs "content-length",
+   bs "transfer-encoding", bs "trailer", bs "connection", bs "upgrade", bs "proxy-authorization"]
+
 /-- a configured rule can touch the field named `n` (lower-case) -/
 def ruleTouches (n : Bytes) : Rule → Bool
   | .removePrefix p => (lower p).isPrefixOf n
